@@ -1882,7 +1882,7 @@ def stream_scope_cases(ctx: Ctx):
                 cons.append({'name': 'R', 'kind': 'keyref', 'on': 'sec', 'sel': 'ref', 'fields': ['@f1'], 'refer': 'K'})
             secs = [[_row('item', a), _row('item', b)] + ([_row('ref', r)] if r else [])
                     for a in vals for b in vals[:3] for r in ([None] + vals[1:3] if withref else [None])]
-            for _ in range(ctx.pick(60, 400)):
+            for _ in range(ctx.pick(30, 400)):
                 combo = [rnd.choice(secs) for _ in range(3)]
                 for mode in modes:
                     n += 1
@@ -1930,7 +1930,7 @@ def run(ctx: Ctx, driver_ok: bool) -> None:
         go(case, 'exhaustive-id-depth')
     for case in stream_scope_cases(ctx):
         go(case, 'stream-scope')
-    n = ctx.pick(3000, 30000)
+    n = ctx.pick(2300, 30000)
     for i in range(n):
         go(random_case(ctx.rng, big=(i % 5 == 4)), 'random')
         if ctx.time_left() < 120:
